@@ -1163,7 +1163,7 @@ struct World
     scale = plan.cfg.getu("scale", 1) == 0 ? 1 : plan.cfg.getu("scale", 1);
     if (scale > 1)
       ctx.probe("large_counts_run");
-    if (scale >= 65536)
+    if (scale >= 32768)
       ctx.probe("huge_counts_run");
     unsigned effective = 0;
     for (sim::Op const &op : plan.ops)
@@ -1176,7 +1176,16 @@ struct World
       if (ctx.events != ev0)
         ++effective;
       check_all(op.name.c_str());
-      ctx.state(state_str());
+      // (the distinct-states measure renders every element: in huge runs sizes have to do)
+      if (scale >= 32768)
+      {
+        std::string sizes;
+        for (unsigned k = 0; k < VSLOTS; ++k)
+          sizes += v[k].sut ? "v" + std::to_string(v[k].model.size()) + " " : "";
+        ctx.state(sizes);
+      }
+      else
+        ctx.state(state_str());
       ctx.end_op();
     }
     // teardown: everything destroyed, ledger empty
@@ -1210,7 +1219,7 @@ void generate(sim::Rng &rng, sim::Plan &p, bool thorough)
   // ... and one run in 300 is huge (blocks beyond a megabyte, where an implementation may switch
   // to another growth policy); those runs are short
   bool const huge = rng.chance(1, 300);
-  long const scale = huge ? 65536 : (sc == 0 ? 64 : (sc <= 2 ? 8 : 1));
+  long const scale = huge ? 32768 : (sc == 0 ? 64 : (sc <= 2 ? 8 : 1));
   bool const big = scale != 1;
   if (big)
     p.cfg.set("scale", scale);
